@@ -32,7 +32,9 @@ CONFIG = {
     "quick": {"budget_s": 55, "preds_per_cell": 40, "case_timeout_s": 120},
     "thorough": {"budget_s": 600, "preds_per_cell": 10**6, "case_timeout_s": 600},
 }
-DATASETS = ["one_file_unnamed", "three_named", "five_unsorted", "nine_files", "nulls", "with_empty_file", "string_index"]
+DATASETS = ["one_file_unnamed", "three_named", "five_unsorted", "nine_files", "nulls", "with_empty_file", "string_index", "rotated3", "rotated4", "rotated5"]
+# datasets whose file-name order is a (non-involutive) permutation of their index order: file i holds index block ROTATIONS[ds][i]
+ROTATIONS = {"rotated3": [2, 0, 1], "rotated4": [3, 0, 1, 2], "rotated5": [1, 3, 4, 0, 2]}
 READERS = ["fsspec", "arrow"]
 
 
@@ -55,7 +57,7 @@ def make_pdf(variant):
         df["s"] = pd.array(ss, dtype="str")
     if variant == "one_file_unnamed":
         pass
-    elif variant == "three_named":
+    elif variant == "three_named" or variant.startswith("rotated"):
         df.index = pd.Index(np.arange(n) * 2, name="ix")
     elif variant == "five_unsorted":
         df.index = pd.Index(r.permutation(n), name="ux")
@@ -68,7 +70,7 @@ def make_pdf(variant):
     return df
 
 
-NFILES = {"one_file_unnamed": 1, "three_named": 3, "five_unsorted": 5, "nine_files": 9, "nulls": 4, "with_empty_file": 4, "string_index": 3}
+NFILES = {"rotated3": 3, "rotated4": 4, "rotated5": 5, "one_file_unnamed": 1, "three_named": 3, "five_unsorted": 5, "nine_files": 9, "nulls": 4, "with_empty_file": 4, "string_index": 3}
 
 ATOMS = {
     "a>2": lambda d: d.a > 2, "a<=4": lambda d: d.a <= 4, "a==3": lambda d: d.a == 3, "b>1.5": lambda d: d.b > 1.5, "b!=2.0": lambda d: d.b != 2.0,
@@ -155,6 +157,15 @@ def run_case(case):
         src.to_parquet(path, write_index=True)
     except Exception as ex:
         return {"status": "refused", "counters": {"write_refused": 1}, "sets": {"write_refusals": [f"{ds}:{type(ex).__name__}:{str(ex)[:60]}"]}}
+    if ds in ROTATIONS:
+        files = sorted(f for f in os.listdir(path) if f.endswith(".parquet"))
+        perm = ROTATIONS[ds]
+        if len(files) == len(perm):
+            for f in files:
+                os.rename(os.path.join(path, f), os.path.join(path, f + ".tmp"))
+            for i, f in enumerate(files):
+                os.rename(os.path.join(path, files[perm[i]] + ".tmp"), os.path.join(path, f))
+            bump("file_order_permuted_datasets")
     kw = {"filesystem": reader}
     if cd:
         kw["calculate_divisions"] = True
@@ -168,7 +179,9 @@ def run_case(case):
         full = None
     if viol is None:
         bump("roundtrips_compared")
-        d = compare(full, written, order=True, index=True, dtypes=False)
+        # without statistics the partitions come in file-name order, which for the permuted datasets is not the written order
+        # (a reader that does not re-order the files by their statistics reports unknown divisions for them)
+        d = compare(full, written, order=not (ds in ROTATIONS and not (cd and r.known_divisions)), index=True, dtypes=False)
         if d:
             viol = dict(d, oracle="roundtrip", index_name_written=repr(written.index.name), index_name_read=repr(full.index.name))
     if viol is None and cd:
